@@ -178,8 +178,16 @@ def delivery(chk, prop):
                 not_fin = ex_.check(z3.Not(fin))
                 kept = ex_.check(keep)
                 not_kept = ex_.check(z3.Not(keep))
-                if (is_fin and not_fin) or (kept and not_kept):
+                if is_fin and not_fin:
                     ob('path-decides').verdict = 'inconclusive'
+                    return
+                if kept and not_kept:
+                    # the filter verdict never influenced this path although what must be delivered depends on it
+                    o = ob('pass-through-then-re-emit-matching-once-in-order-after-run-Finished')
+                    o.paths += 1
+                    o.verdict = 'violated'
+                    o.detail = 'the filter verdict is not consulted for this item (Finished=%s, buffered=%d): delivery cannot follow it' % (is_fin, n)
+                    o.model = {'finished': is_fin, 'filter': 'not consulted', 'buffered_before': n}
                     return
                 inp, old = res['input'], list(res['old'])
 
@@ -257,6 +265,18 @@ def confirm_delivery(chk, bad, prop):
                     chk.replay_files.append(path)
                 else:
                     os.remove(path)
+    # a custom filter selecting everything: the run-level events (run-Finished itself) are re-emitted too
+    for n in (0, 1):
+        path = os.path.join(d, '%s-repeat-all-%d.script' % (prop, n))
+        lines = ['mode events', 'wrapper repeat_all', 'bg 3', 'own 1', 'ev run_started'] + ['ev bg %d passed r=-' % i for i in range(n)] + ['ev run_finished']
+        fed = n + 2
+        res, out = replay.run_script('\n'.join(lines) + '\n', path)
+        chk.replays += 1
+        if res is not None and res.get('inner_events') != 2 * fed:
+            deviations.append((path, res.get('inner_events'), 2 * fed))
+            chk.replay_files.append(path)
+        elif res is not None:
+            os.remove(path)
     for o in bad:
         if deviations:
             o.replay = deviations[0][0]
